@@ -287,7 +287,7 @@ func (m *Monitor) checkArg(f *Fn, n node, kind string, i int, p Param, got []*To
 			upper = append(upper, ts...)
 			if m.inv != nil && m.inv.doneAtStart[r.F.ID] {
 				lower = append(lower, ts...)
-			} else if m.paramInObject(f, i) {
+			} else if m.paramInObject(f, i) && !m.underUnbuiltDecorator(f, n) {
 				for j, q := range f.Params {
 					if j == i || (q.K.Group != "" && q.Soft) || !m.sameObject(f, i, j) {
 						continue
@@ -410,6 +410,21 @@ func (m *Monitor) checkArg(f *Fn, n node, kind string, i int, p Param, got []*To
 	if g != want {
 		m.violate("C01,C08,C09,C02", "C01.wrong-value", "f%d param %v: got %v want %v (provider f%d)", f.ID, p, g, want, r.F.ID)
 	}
+}
+
+// underUnbuiltDecorator: f may be running while a decorator that was not built when the Invoke
+// started is on the stack (f is needed by that decorator): which values its lookups see then
+// depends on evaluation order (DESIGN 10.1).
+func (m *Monitor) underUnbuiltDecorator(f *Fn, n node) bool {
+	for _, d := range m.decs {
+		if d == n.self || (m.inv != nil && m.inv.doneAtStart[d.F.ID]) {
+			continue
+		}
+		if m.inReach(d, f.ID) {
+			return true
+		}
+	}
+	return false
 }
 
 // paramInObject / sameObject: the soft lower bound speaks about fields of the same parameter object.
